@@ -4,7 +4,7 @@
 //! canonical forms of `client_mock` (`Comp`, `classify_err`, `fatal_class`, `MockErr`, `barrier`).
 //!
 //! Op lines (family tag `ct`, mirrored by lean/JrpcVerif/Driver/ClientTasksFamily.lean):
-//!   ct call | ct subscribe | ct batch <n> | ct notify
+//!   ct call | ct subscribe | ct batch <n> | ct notify | ct drop <ticket> | ct unsub <ticket>
 //!   | ct deliver <text hex> | ct fault send_err <k> | ct fault recv_err <k> | ct fault peer_close
 //!   | ct fault garbage <text hex> | ct gate send|close|recv|all open|shut | ct probe | ct end
 //!   | ct deliverbytes <hex> | ct deepdeliver <depth>          (outside the text model: `#skip` from there on)
@@ -101,6 +101,8 @@ enum FSlot {
 	Batch(JoinHandle<Result<Comp, Error>>),
 	Notify(JoinHandle<Result<(), Error>>),
 	Stream(Stream),
+	/// inside `Subscription::unsubscribe()` (resolves when the stream has ended)
+	Unsub(JoinHandle<()>),
 	Done,
 }
 
@@ -377,6 +379,8 @@ impl FaultSession {
 					}
 				};
 				out.push((i, ended));
+			} else if let FSlot::Unsub(h) = s {
+				out.push((i, h.is_finished()));
 			}
 		}
 		out
@@ -424,6 +428,27 @@ impl FaultSession {
 			("notify", []) => {
 				let c = self.client.clone();
 				self.slots.push(FSlot::Notify(tokio::spawn(async move { c.notification("m", ArrayParams::new()).await })));
+				self.settle(&mut obs).await;
+			}
+			("drop", [k]) => {
+				// the application drops an accepted subscription: `Drop` queues SubscriptionClosed (try_send)
+				let Ok(k) = k.parse::<usize>() else { return bad(obs) };
+				if !matches!(self.slots.get(k), Some(FSlot::Stream(_))) {
+					return bad(obs);
+				}
+				self.slots[k] = FSlot::Done;
+				self.settle(&mut obs).await;
+			}
+			("unsub", [k]) => {
+				let Ok(k) = k.parse::<usize>() else { return bad(obs) };
+				if !matches!(self.slots.get(k), Some(FSlot::Stream(_))) {
+					return bad(obs);
+				}
+				if let FSlot::Stream(st) = std::mem::replace(&mut self.slots[k], FSlot::Done) {
+					self.slots[k] = FSlot::Unsub(tokio::spawn(async move {
+						let _ = st.unsubscribe().await;
+					}));
+				}
 				self.settle(&mut obs).await;
 			}
 			("deliver", [h]) | ("fault", ["garbage", h]) => {
